@@ -2,7 +2,7 @@
 # Run quick checks against a scratch worktree of /repo's HEAD with a seeded patch applied (VERIF_REPO), leaving /repo
 # itself untouched.  usage: seedtest_wt.sh <patch.diff> <ID>...
 P=$1; shift
-APP=/tmp/verif_seedapp
+APP=${SEEDAPP:-/tmp/verif_seedapp}
 if [ ! -d $APP ]; then git -C /repo worktree add -q --detach $APP HEAD || exit 2; fi
 git -C $APP checkout -q -- . && git -C $APP checkout -q --detach "$(git -C /repo rev-parse HEAD)" || exit 2
 git -C $APP apply "$P" || { echo "patch does not apply"; exit 2; }
